@@ -93,7 +93,11 @@ func (b *mdBuilder) fields() []metadata.Field {
 
 func metaBuild(a []string) *ir.Module {
 	m := ir.NewModule()
-	named := map[string]*types.StructType{}
+	metaFill(m, map[string]*types.StructType{}, a)
+	return m
+}
+
+func metaFill(m *ir.Module, named map[string]*types.StructType, a []string) {
 	var descs []mdDesc
 	if a[1] != "-" {
 		for _, ds := range strings.Split(a[1], "|") {
@@ -132,7 +136,6 @@ func metaBuild(a []string) *ir.Module {
 			m.NamedMetadataDefs[nd.Name] = nd
 		}
 	}
-	return m
 }
 
 func init() {
